@@ -25,7 +25,7 @@ BOUND = {
              "the root, every unary root over a height-2 tree, 1/12 of the remaining height-3 trees (2 vector sets without '=' "
              "and 1 with, each); 34 hand-written spellings; 5000 random trees of height 4..6 over 7 names / 10 literals x 3 "
              "random vector sets; two 20/10-evaluation items for the two known defects",
-    "thorough": "as quick, but EVERY height-3 tree (binary root over two height<=2 trees, ~9*10^5 trees), and 150000 random "
+    "thorough": "as quick, but EVERY height-3 tree (binary root over two height<=2 trees, ~9*10^5 trees), and 400000 random "
                 "trees of height 4..6 x 3 random vector sets",
 }
 RULE = ("case = work item (set of trees x vector sets x assignment mode); a (tree, vectors) pair is non-trivial when ordinary "
@@ -89,7 +89,8 @@ def vec(vs):
 class Undefined(Exception):
     """Ordinary arithmetic assigns no value, or the value sits on a discontinuity that a one-ulp difference in an
     inexact intermediate (division, roots, means ...) could cross: comparison / ARGMIN / SIGN / zero test on inexact
-    operands closer than 1e-6, denominator of magnitude < 1e-6."""
+    operands closer than 1e-6, denominator of magnitude < 1e-6, inexact denominator ~0 (NaN-or-huge), negative base
+    with an inexact exponent (real-or-complex), 0 ** inexact ~0."""
 
 
 class Val:
@@ -107,7 +108,8 @@ def _chk(r):
     return r
 
 
-def _bin(op, p, q, lsc, rsc, inex):
+def _bin(op, p, q, lsc, rsc, linex, rinex):
+    inex = linex or rinex
     if op == "+":
         return _chk(p + q)
     if op == "-":
@@ -115,6 +117,8 @@ def _bin(op, p, q, lsc, rsc, inex):
     if op == "*":
         return _chk(p * q)
     if op == "/":
+        if rinex and q == q and abs(q) < TINY:
+            raise Undefined("inexact denominator ~0 (zero test)")
         if q == 0:
             if rsc or lsc:
                 raise Undefined("division by a literal zero / of a literal by a zero feature value")
@@ -123,8 +127,10 @@ def _bin(op, p, q, lsc, rsc, inex):
             raise Undefined("tiny denominator")
         return _chk(p / q)
     if op == "^":
-        if inex and p == p and abs(p) < TINY and q != int(q if q == q else 0):
+        if linex and p == p and abs(p) < TINY and (rinex or q != q or q != int(q)):
             raise Undefined("root of an inexact ~0")
+        if rinex and p == p and (p < 0 or (abs(p) < TINY and q == q and abs(q) < TINY)):
+            raise Undefined("negative or zero base with an inexact exponent")
         try:
             return _chk(p ** q)
         except (ZeroDivisionError, OverflowError, ValueError):
@@ -231,13 +237,13 @@ def eval_tree(t, V):
         L, R = eval_tree(t[2], V), eval_tree(t[3], V)
         inex = L.inexact or R.inexact
         if L.scalar and R.scalar:
-            r = Val(_bin(t[1], L.v, R.v, True, True, inex), True, inex)
+            r = Val(_bin(t[1], L.v, R.v, True, True, L.inexact, R.inexact), True, inex)
             if t[1] in "<>":
                 r.v = float(r.v)
         else:
             lv = [L.v] * n if L.scalar else L.v
             rv = [R.v] * n if R.scalar else R.v
-            r = Val([_bin(t[1], p, q, L.scalar, R.scalar, inex) for p, q in zip(lv, rv)], False, inex)
+            r = Val([_bin(t[1], p, q, L.scalar, R.scalar, L.inexact, R.inexact) for p, q in zip(lv, rv)], False, inex)
         if t[1] == "/" or (t[1] == "^" and not (R.scalar and R.v == int(R.v) and R.v >= 0)):
             r.inexact = True
         return r
@@ -429,7 +435,7 @@ def cases(tier, seed):
                 yield dict(kind="bin", op=op, fixed=i, side=side, other="deep", k=1, seed=rnd.randrange(1 << 30))
         for i in range(na, n2):  # both sides of height 2
             yield dict(kind="bin", op=op, fixed=i, side="L", other="deep", k=12 if quick else 1, seed=rnd.randrange(1 << 30))
-    total, per = (5000, 100) if quick else (150000, 250)
+    total, per = (5000, 100) if quick else (400000, 250)
     for _ in range(total // per):
         yield dict(kind="rand", seed=rnd.randrange(1 << 30), count=per)
 
